@@ -8,6 +8,7 @@ U(n) == S!U(n)  I(n) == S!I(n)  Bits(n) == S!Bits(n)  Bool == S!Bool  VarU(n) ==
 Grams == S!Grams  Leq(n) == S!Leq(n)  AddrInt == S!AddrInt  AddrExt == S!AddrExt  CC == S!CC  Maybe(t) == S!Maybe(t)
 Either(l, r) == S!Either(l, r)  Ref(t) == S!Ref(t)  RefCell == S!RefCell  AnyRest == S!AnyRest  Named(nm) == S!Named(nm)
 HmE(n, t) == S!HmE(n, t)  Hm(n, t) == S!Hm(n, t)  If(fl, t) == S!If(fl, t)  IfBit(fl, b, t) == S!IfBit(fl, b, t)
+BinTree(t) == S!BinTree(t)  HmS(n, t) == S!HmS(n, t)
 Lite(t) == S!Lite(t)  HmAug(n, t, x) == S!HmAug(n, t, x)  HmAugE(n, t, x) == S!HmAugE(n, t, x)  RefAny == S!RefAny
 RefPick(fl, t0, t1) == S!RefPick(fl, t0, t1)  F(name, t) == S!F(name, t)  Alt(cn, tag, fs) == S!Alt(cn, tag, fs)
 Tag32(a, b, c, d) == S!BytesToBits(<<a, b, c, d>>)
@@ -158,14 +159,45 @@ TheSchema == [
      Alt("msg_export_deq_imm", <<1,0,0>>, << F("out_msg", Ref(Lite(Named("MsgEnvelopeAny")))), F("reimport", Ref(Lite(Named("InMsg")))) >>),
      Alt("msg_export_new_defer", <<1,0,1,0,0>>, << F("out_msg", Ref(Lite(Named("MsgEnvelopeAny")))), F("transaction", Ref(Lite(Named("Transaction")))) >>),
      Alt("msg_export_deferred_tr", <<1,0,1,0,1>>, << F("out_msg", Ref(Lite(Named("MsgEnvelopeAny")))), F("imported", Ref(Lite(Named("InMsg")))) >>) >>,
+  \* ---- masterchain extras
+  \* _ (HashmapE 32 ^(BinTree ShardDescr)) = ShardHashes;   _ config_addr:bits256 config:^(Hashmap 32 ^Cell) = ConfigParams;
+  \* _ (HashmapAugE 32 KeyExtBlkRef KeyMaxLt) = OldMcBlocksInfo;
+  \* block_create_stats#17 counters:(HashmapE 256 CreatorStats) / block_create_stats_ext#34 counters:(HashmapAugE 256 CreatorStats uint32)
+  ConfigParams |-> << Alt("config_params", <<>>, << F("config_addr", Bits(256)), F("config", Ref(HmS(32, RefCell))) >>) >>,
+  BlockCreateStats |-> << Alt("block_create_stats", Tag8(23), << F("counters", HmE(256, Named("CreatorStats"))) >>),
+                          Alt("block_create_stats_ext", Tag8(52), << F("counters", HmAugE(256, Named("CreatorStats"), U(32))) >>) >>,
+  \* masterchain_state_extra#cc26 shard_hashes:ShardHashes config:ConfigParams ^[ flags:(## 16) { flags <= 1 } validator_info:ValidatorInfo
+  \*   prev_blocks:OldMcBlocksInfo after_key_block:Bool last_key_block:(Maybe ExtBlkRef) block_create_stats:(flags . 0)?BlockCreateStats ]
+  \*   global_balance:CurrencyCollection = McStateExtra;
+  McStateExtraR |-> << Alt("r1", <<>>, << F("flags", UMax(16, 1)), F("validator_info", Named("ValidatorInfo")),
+        F("prev_blocks", HmAugE(32, Named("KeyExtBlkRef"), Named("KeyMaxLt"))), F("after_key_block", Bool),
+        F("last_key_block", Maybe(Named("ExtBlkRef"))), F("block_create_stats", IfBit("flags", 0, Named("BlockCreateStats"))) >>) >>,
+  McStateExtra |-> << Alt("masterchain_state_extra", <<1,1,0,0,1,1,0,0, 0,0,1,0,0,1,1,0>>, <<
+        F("shard_hashes", HmE(32, Ref(BinTree(Lite(Named("ShardDescr")))))), F("config", Named("ConfigParams")),
+        F("r1", Ref(Named("McStateExtraR"))), F("global_balance", CC) >>) >>,
+  \* shard_fee_created#_ fees:CurrencyCollection create:CurrencyCollection;  _ (HashmapAugE 96 ShardFeeCreated ShardFeeCreated) = ShardFees;
+  ShardFeeCreated |-> << Alt("shard_fee_created", <<>>, << F("fees", CC), F("create", CC) >>) >>,
+  \* masterchain_block_extra#cca5 key_block:(## 1) shard_hashes:ShardHashes shard_fees:ShardFees
+  \*   ^[ prev_blk_signatures:(HashmapE 16 CryptoSignaturePair) recover_create_msg:(Maybe ^InMsg) mint_msg:(Maybe ^InMsg) ]
+  \*   config:key_block?ConfigParams = McBlockExtra;
+  \* sig_pair$_ node_id_short:bits256 sign:CryptoSignature;  ed25519_signature#5 R:bits256 s:bits256
+  \* The library hands back these parts unparsed (signature pairs as the leaf's remaining slice, the two messages and the
+  \* shard-fee dictionary as cells), so they are transcribed structurally: a HashmapAugE is a bit, an optional reference
+  \* and the root extra that follows it.
+  McBlockExtraR |-> << Alt("r1", <<>>, << F("prev_blk_signatures", HmE(16, AnyRest)),
+        F("recover_create_msg", Maybe(RefCell)), F("mint_msg", Maybe(RefCell)) >>) >>,
+  McBlockExtra |-> << Alt("masterchain_block_extra", <<1,1,0,0,1,1,0,0, 1,0,1,0,0,1,0,1>>, <<
+        F("key_block", Bool), F("shard_hashes", HmE(32, Ref(BinTree(Lite(Named("ShardDescr")))))),
+        F("shard_fees", Maybe(RefCell)), F("shard_fees_extra", Named("ShardFeeCreated")),
+        F("r1", Ref(Named("McBlockExtraR"))), F("config", If("key_block", Named("ConfigParams"))) >>) >>,
   \* ---- the block itself
   \* block_extra in_msg_descr:^InMsgDescr out_msg_descr:^OutMsgDescr account_blocks:^ShardAccountBlocks rand_seed:bits256 created_by:bits256
   \*   custom:(Maybe ^McBlockExtra) = BlockExtra;   InMsgDescr = HashmapAugE 256 InMsg ImportFees, OutMsgDescr = HashmapAugE 256 OutMsg
-  \*   CurrencyCollection, ShardAccountBlocks = HashmapAugE 256 AccountBlock CurrencyCollection.  McBlockExtra is not transcribed (RefAny).
+  \*   CurrencyCollection, ShardAccountBlocks = HashmapAugE 256 AccountBlock CurrencyCollection.
   BlockExtra |-> << Alt("block_extra", Tag32(74, 51, 246, 253), <<
         F("in_msg_descr", Ref(HmAugE(256, Lite(Named("InMsg")), Named("ImportFees")))), F("out_msg_descr", Ref(HmAugE(256, Lite(Named("OutMsg")), CC))),
         F("account_blocks", Ref(HmAugE(256, Lite(Named("AccountBlock")), CC))), F("rand_seed", Bits(256)), F("created_by", Bits(256)),
-        F("custom", Maybe(RefAny)) >>) >>,
+        F("custom", Maybe(Ref(Lite(Named("McBlockExtra"))))) >>) >>,
   \* block#11ef55aa global_id:int32 info:^BlockInfo value_flow:^ValueFlow state_update:^(MERKLE_UPDATE ShardState) extra:^BlockExtra = Block;
   Block |-> << Alt("block", Tag32(17, 239, 85, 170), << F("global_id", I(32)), F("info", Ref(Named("BlockInfo"))), F("value_flow", Ref(Named("ValueFlow"))),
         F("state_update", RefAny), F("extra", Ref(Lite(Named("BlockExtra")))) >>) >>
